@@ -117,6 +117,7 @@ type Ctx struct {
 	// detector can tell "blocked for good" from "slow".
 	Activity int64
 	State    interface{} // per-worker state set by Setup
+	abort    func()
 }
 
 type guard struct {
@@ -265,6 +266,16 @@ func (c *Ctx) Violations() int64 {
 
 func (c *Ctx) Touch() { atomic.AddInt64(&c.Activity, 1) }
 
+// AbortWorker ends this worker process at once (after what was recorded so far is on disk); the parent starts a
+// new worker after the current case. For cases that must be cut short because the driver code under test cannot be
+// stopped any other way (e.g. it is allocating without bound) - the violation has to be recorded before the call.
+func (c *Ctx) AbortWorker() {
+	if c.abort != nil {
+		c.abort()
+	}
+	os.Exit(5)
+}
+
 // Guard runs fn (in the calling goroutine) and registers it as "an operation that must
 // return" for the hang detector.
 func (c *Ctx) Guard(name string, fn func()) {
@@ -385,6 +396,11 @@ func RunWorker(p *Prop, ph *Phase, c *Ctx, start int, only int) int {
 		tmp := filepath.Join(c.OutDir, "result.json.tmp")
 		os.WriteFile(tmp, b, 0o644)
 		os.Rename(tmp, filepath.Join(c.OutDir, "result.json"))
+	}
+	c.abort = func() {
+		writeRes(false)
+		fmt.Fprintf(c.progF, "A %d\n", c.Case)
+		os.Exit(5)
 	}
 	if ph.Setup != nil {
 		ph.Setup(c)
